@@ -66,22 +66,22 @@ var forbiddenPkgs = map[string]string{
 // construct cannot influence a state transition. The two configuration facts the
 // reasons rely on (empty Config, fulldag=false) are checked by C20.ethash.config.
 var c20Allow = map[string]string{
-	"light-clients/09-eth/types.generateCache":                          "wall-clock reads, the progress goroutine, its select and timer only produce log lines (elapsed time, percentage); the generated cache is a pure function of (epoch, seed)",
-	"light-clients/09-eth/types.generateDataset":                        "full-DAG generation (NumCPU worker goroutines, timers): only reached through Ethash.dataset, which VerifySeal calls only with fulldag=true; header verification passes fulldag=false",
-	"(light-clients/09-eth/types.Ethash).dataset":                       "full-DAG path, only with fulldag=true (see generateDataset)",
-	"(light-clients/09-eth/types.dataset).generate":                     "full-DAG path, only with fulldag=true (see generateDataset)",
-	"(light-clients/09-eth/types.Ethash).cache":                         "go future.generate prefetches the next epoch's verification cache; cache contents are a pure function of the epoch, so the prefetch changes timing only",
-	"(light-clients/09-eth/types.cache).generate":                       "disk/mmap branch is taken only when dir != \"\"; header verification constructs ethash with an empty Config, so the cache is generated in memory",
-	"light-clients/09-eth/types.memoryMap":                              "only called from the disk branches of cache.generate/dataset.generate (dir != \"\"), unreachable with the empty Config",
-	"light-clients/09-eth/types.memoryMapFile":                          "only called from memoryMap/memoryMapAndGenerate (disk branch, see memoryMap)",
-	"light-clients/09-eth/types.memoryMapAndGenerate":                   "disk branch only (see memoryMap); the rand.Int there names a temporary file",
-	"light-clients/09-eth/types.startRemoteSealer":                      "New() starts the idle remote-mining service goroutine; verification never submits work to it and Close() stops it; it shares no data with VerifySeal",
-	"(light-clients/09-eth/types.remoteSealer).loop":                    "body of the idle remote-mining service (see startRemoteSealer); handles only mining requests, which consensus code never sends",
-	"(light-clients/09-eth/types.remoteSealer).submitWork":              "remote-mining service (see startRemoteSealer)",
-	"(light-clients/09-eth/types.remoteSealer).notifyWork":              "remote-mining service (see startRemoteSealer); notify list is nil in header verification",
-	"(light-clients/09-eth/types.remoteSealer).sendNotification":        "remote-mining service (see startRemoteSealer); notify list is nil in header verification",
-	"(light-clients/09-eth/types.remoteSealer).makeWork":                "remote-mining service (see startRemoteSealer)",
-	"(light-clients/09-eth/types.Ethash).Close":                         "select used to hand the exit request to the remote-mining service goroutine; no state transition depends on it",
+	"light-clients/09-eth/types.generateCache":                   "wall-clock reads, the progress goroutine, its select and timer only produce log lines (elapsed time, percentage); the generated cache is a pure function of (epoch, seed)",
+	"light-clients/09-eth/types.generateDataset":                 "full-DAG generation (NumCPU worker goroutines, timers): only reached through Ethash.dataset, which VerifySeal calls only with fulldag=true; header verification passes fulldag=false",
+	"(light-clients/09-eth/types.Ethash).dataset":                "full-DAG path, only with fulldag=true (see generateDataset)",
+	"(light-clients/09-eth/types.dataset).generate":              "full-DAG path, only with fulldag=true (see generateDataset)",
+	"(light-clients/09-eth/types.Ethash).cache":                  "go future.generate prefetches the next epoch's verification cache; cache contents are a pure function of the epoch, so the prefetch changes timing only",
+	"(light-clients/09-eth/types.cache).generate":                "disk/mmap branch is taken only when dir != \"\"; header verification constructs ethash with an empty Config, so the cache is generated in memory",
+	"light-clients/09-eth/types.memoryMap":                       "only called from the disk branches of cache.generate/dataset.generate (dir != \"\"), unreachable with the empty Config",
+	"light-clients/09-eth/types.memoryMapFile":                   "only called from memoryMap/memoryMapAndGenerate (disk branch, see memoryMap)",
+	"light-clients/09-eth/types.memoryMapAndGenerate":            "disk branch only (see memoryMap); the rand.Int there names a temporary file",
+	"light-clients/09-eth/types.startRemoteSealer":               "New() starts the idle remote-mining service goroutine; verification never submits work to it and Close() stops it; it shares no data with VerifySeal",
+	"(light-clients/09-eth/types.remoteSealer).loop":             "body of the idle remote-mining service (see startRemoteSealer); handles only mining requests, which consensus code never sends",
+	"(light-clients/09-eth/types.remoteSealer).submitWork":       "remote-mining service (see startRemoteSealer)",
+	"(light-clients/09-eth/types.remoteSealer).notifyWork":       "remote-mining service (see startRemoteSealer); notify list is nil in header verification",
+	"(light-clients/09-eth/types.remoteSealer).sendNotification": "remote-mining service (see startRemoteSealer); notify list is nil in header verification",
+	"(light-clients/09-eth/types.remoteSealer).makeWork":         "remote-mining service (see startRemoteSealer)",
+	"(light-clients/09-eth/types.Ethash).Close":                  "select used to hand the exit request to the remote-mining service goroutine; no state transition depends on it",
 }
 
 func c20Tabled(name string) (string, bool) {
@@ -210,7 +210,7 @@ func ruleC20(w *World, r *Report) {
 // reasoned table of order-insensitive map ranges: function -> reason
 var mapRangeAllow = map[string]string{
 	"(light-clients/09-eth/types.remoteSealer).loop": "bookkeeping of the idle remote-mining service (pending work / hashrate maps); not consensus state and never exercised by header verification",
-	"light-clients/08-bsc/types.verifySeal": "scan of snap.Recents for the recovered signer: every matching element inside the window leads to the same sentinel error and no state is written, so the outcome does not depend on which element is visited first",
+	"light-clients/08-bsc/types.verifySeal":          "scan of snap.Recents for the recovered signer: every matching element inside the window leads to the same sentinel error and no state is written, so the outcome does not depend on which element is visited first",
 }
 
 func (k *K) mapRangeRule(id string, fns []*ssa.Function) {
